@@ -1,3 +1,5 @@
 import OlVerif.Props.C01
 #print axioms OlVerif.C01.chain_call_keeps_all
 #print axioms OlVerif.C01.list_keeps_all
+#print axioms OlVerif.C01.wrapper_evaluates_in_order
+#print axioms OlVerif.C01.straight_line_effects
